@@ -2,7 +2,7 @@
 from __future__ import annotations
 import ast
 from ..core import expr as X
-from ..core.interp import Interp, Arr
+from ..core.interp import Interp, Arr, PathExplorer
 from ..core.report import AnalysisError
 from ..frontend.pyfront import Repo
 
@@ -40,42 +40,79 @@ def run(chk):
     d = X.Decider(seed=chk.seed, k=3 if chk.tier == 'quick' else 12)
     freq = X.atom('freq', 'pos')
 
-    def eq(rule, inst, got, ref, where=where):
-        ok = d.equal(got, ref)
-        chk.ob(rule, inst, ok, '' if ok else f'identity fails: {d.describe(got, ref)}', where, method='GF(p^2) PIT')
+    cur = {'d': d}
 
+    def eq(rule, inst, got, ref, where=where):
+        dd = cur['d']
+        if dd is None:
+            chk.undecide(rule, inst, 'path runs through a measure-zero arm whose defining equation cannot be imposed as a pin')
+            return
+        ok = dd.equal(got, ref)
+        chk.ob(rule, inst, ok, '' if ok else f'identity fails: {dd.describe(got, ref)}', where, method='GF(p^2) PIT')
+
+    def all_paths(make_args):
+        """every path through data-dependent branches of the kernel (none on today's tree): fresh symbolic inputs per path"""
+        def one(fork):
+            it.hooks['fork'] = fork
+            try:
+                args, ctx = make_args()
+                return ctx, it.call(ms, f, args)
+            finally:
+                it.hooks.pop('fork', None)
+        return PathExplorer(max_paths=16).run(one)
+
+    n_paths = 0
     for l in (2, 3, 5):
-        pots, y, lon, col, tim, rad, shear, bulk = mk_inputs(1, 1, 1, 1)
-        U, Ut, Up, Utt, Upp, Utp = pots
-        strains, stresses = it.call(ms, f, [U, Ut, Up, Utt, Upp, Utp, y, lon, col, tim, rad, shear, bulk, freq, l])
-        ix = (0, 0, 0, 0)
-        mu = shear.get(0); K = bulk.get(0); r = rad.get(0); th = col.get(0)
-        lam = K - X.const(2) / 3 * mu
-        eps = [strains.get((k,) + ix) for k in range(6)]
-        sig = [stresses.get((k,) + ix) for k in range(6)]
-        tr = eps[0] + eps[1] + eps[2]
-        for k in range(6):
-            eq('R15.1', f'l={l}: stress[{k}] == 2 mu strain[{k}]' + (' + lambda tr(strain)' if k < 3 else ''), sig[k], 2 * mu * eps[k] + (lam * tr if k < 3 else 0))
-        # Laplace relation as a rewrite of U_theta_theta
-        u = U.get((0, 0, 0)); ut = Ut.get((0, 0, 0)); up = Up.get((0, 0, 0)); upp = Upp.get((0, 0, 0))
-        sin_t = X.fn('sin', th); cos_t = X.fn('cos', th)
-        utt_rule = -(l * (l + 1)) * u - cos_t / sin_t * ut - upp / (sin_t * sin_t)
-        sub = {Utt.get((0, 0, 0)).val[0]: utt_rule}
-        y1, y2, y3, y4 = (y.get((i, 0)) for i in range(4))
-        eq('R15.2', f'l={l}: sigma_rr == y2 U (degree-l Laplace relation imposed)', X.subst(sig[0], sub), y2 * u)
-        eq('R15.2', f'l={l}: sigma_r-theta == y4 dU/dtheta', sig[3], y4 * ut)
-        eq('R15.2', f'l={l}: sigma_r-phi == y4 dU/dphi / sin(theta)', sig[4], y4 * up / sin_t)
-        eq('R15.2', f'l={l}: strain_rr == dy1/dr U with dy1/dr = (y2 - lambda (2 y1 - l(l+1) y3)/r)/(lambda + 2 mu)', eps[0],
-           (y2 - lam / r * (2 * y1 - l * (l + 1) * y3)) / (lam + 2 * mu) * u)
-        eq('R15.2', f'l={l}: trace(strain) == (dy1/dr + (2 y1 - l(l+1) y3)/r) U (Laplace relation imposed)', X.subst(tr, sub),
-           ((y2 - lam / r * (2 * y1 - l * (l + 1) * y3)) / (lam + 2 * mu) + (2 * y1 - l * (l + 1) * y3) / r) * u)
+        def mk(l=l):
+            pots, y, lon, col, tim, rad, shear, bulk = mk_inputs(1, 1, 1, 1)
+            return pots + [y, lon, col, tim, rad, shear, bulk, freq, l], (pots, y, col, rad, shear, bulk)
+        for trace, (ctx, (strains, stresses)) in all_paths(mk):
+            n_paths += 1
+            pl = PathExplorer.label(trace)
+            w_ = trace[-1][1] if trace else where
+            # open arms are checked as identities; a measure-zero arm (x == 0, not |x| > 0) is checked with x pinned to zero
+            pins = {}; decidable = True
+            for (cv, _w, _t, out) in trace:
+                kind, pn = PathExplorer.arm(cv, out)
+                if kind == 'equality':
+                    if pn is None: decidable = False
+                    else: pins.update(pn)
+            cur['d'] = (X.Decider(seed=chk.seed, k=3 if chk.tier == 'quick' else 12, pins=pins) if pins else d) if decidable else None
+            (pots, y, col, rad, shear, bulk) = ctx
+            U, Ut, Up, Utt, Upp, Utp = pots
+            ix = (0, 0, 0, 0)
+            mu = shear.get(0); K = bulk.get(0); r = rad.get(0); th = col.get(0)
+            lam = K - X.const(2) / 3 * mu
+            eps = [strains.get((k,) + ix) for k in range(6)]
+            sig = [stresses.get((k,) + ix) for k in range(6)]
+            tr = eps[0] + eps[1] + eps[2]
+            for k in range(6):
+                eq('R15.1', f'l={l}: stress[{k}] == 2 mu strain[{k}]' + (' + lambda tr(strain)' if k < 3 else '') + pl, sig[k], 2 * mu * eps[k] + (lam * tr if k < 3 else 0), w_)
+            # Laplace relation as a rewrite of U_theta_theta
+            u = U.get((0, 0, 0)); ut = Ut.get((0, 0, 0)); up = Up.get((0, 0, 0)); upp = Upp.get((0, 0, 0))
+            sin_t = X.fn('sin', th); cos_t = X.fn('cos', th)
+            utt_rule = -(l * (l + 1)) * u - cos_t / sin_t * ut - upp / (sin_t * sin_t)
+            sub = {Utt.get((0, 0, 0)).val[0]: utt_rule}
+            y1, y2, y3, y4 = (y.get((i, 0)) for i in range(4))
+            eq('R15.2', f'l={l}: sigma_rr == y2 U (degree-l Laplace relation imposed)' + pl, X.subst(sig[0], sub), y2 * u, w_)
+            eq('R15.2', f'l={l}: sigma_r-theta == y4 dU/dtheta' + pl, sig[3], y4 * ut, w_)
+            eq('R15.2', f'l={l}: sigma_r-phi == y4 dU/dphi / sin(theta)' + pl, sig[4], y4 * up / sin_t, w_)
+            eq('R15.2', f'l={l}: strain_rr == dy1/dr U with dy1/dr = (y2 - lambda (2 y1 - l(l+1) y3)/r)/(lambda + 2 mu)' + pl, eps[0],
+               (y2 - lam / r * (2 * y1 - l * (l + 1) * y3)) / (lam + 2 * mu) * u, w_)
+            eq('R15.2', f'l={l}: trace(strain) == (dy1/dr + (2 y1 - l(l+1) y3)/r) U (Laplace relation imposed)' + pl, X.subst(tr, sub),
+               ((y2 - lam / r * (2 * y1 - l * (l + 1) * y3)) / (lam + 2 * mu) + (2 * y1 - l * (l + 1) * y3) / r) * u, w_)
+            # shear strains tie back to y4 / mu and y3, y1 directly (independent of the stress route)
+            eq('R15.2', f'l={l}: strain_r-theta == y4 dU/dtheta / (2 mu)' + pl, eps[3], y4 * ut / (2 * mu), w_)
+            eq('R15.2', f'l={l}: strain_r-phi == y4 dU/dphi / (2 mu sin(theta))' + pl, eps[4], y4 * up / (2 * mu * sin_t), w_)
+        cur['d'] = d
         chk.note_analysed('configurations', f'calculate_strain_stress l={l} on 1x1x1x1 grid')
+    chk.note_analysed('paths', f'{n_paths} paths through data-dependent branches of calculate_strain_stress over 3 degrees')
 
     # R15.4 index discipline on a 2x2x2x2 grid: element [k, ri, li, ci, ti] may only mention inputs at (ri), (li,ci,ti), (ci)
     pots, y, lon, col, tim, rad, shear, bulk = mk_inputs(2, 2, 2, 2)
-    strains, stresses = it.call(ms, f, pots + [y, lon, col, tim, rad, shear, bulk, freq, 2])
+    grid_paths = all_paths(lambda: (pots + [y, lon, col, tim, rad, shear, bulk, freq, 2], None))
     bad = []; n = 0
-    for arr in (strains, stresses):
+    for arr in [a_ for (_t, (_c, pair)) in grid_paths for a_ in pair]:
         for k in range(6):
             for ri in range(2):
                 for li in range(2):
@@ -135,7 +172,7 @@ def run(chk):
     fd = mdisp.defs.get('calculate_displacements')
     if isinstance(fd, ast.FunctionDef):
         disp_check(chk, it, mdisp, fd, d)
-    chk.floor('R15.1', 18); chk.floor('R15.2', 15); chk.floor('R15.3', 5); chk.floor('R15.4', 1)
+    chk.floor('R15.1', 18); chk.floor('R15.2', 21); chk.floor('R15.3', 5); chk.floor('R15.4', 1)
     chk.assume('the potential satisfies U_tt + cot(t) U_t + U_pp/sin^2(t) = -l(l+1) U (C14 for the shipped degree-2 potentials); theta in (0, pi)')
 
 
